@@ -240,6 +240,7 @@ def _builders(db, chk, new, old, OPEN_N, CLOSE_N, START_O, END_O):
         chk.ob("C03.R4-encoding", f"{NEW}: the scan unpacks rows in the array's column order", len(lp.target.elts) == 4, new.loc(lp), found=ast.unparse(lp.target), accepted="idx, dur, kind, time")
     sel = [n for n, b in H.find_match("$d['stream'].eq(-1)", f) + H.find_match("$d['stream'] == -1", f) + H.find_match("$d.stream.eq(-1)", f) + H.find_match("$d.stream == -1", f)]
     chk.ob("C03.R4-encoding", f"{NEW}: only host events (stream == -1) of the thread enter the stack", len(sel) == 1, new.loc(f), found=[ast.unparse(s) for s in sel], accepted="df['stream'].eq(-1)")
+    host_rows_complete(db, chk, "C03.R4-encoding")
     # ---------------- deprecated builder (used by critical-path analysis)
     g = H.inline_helpers(old, old.func("CallStackGraph._construct_call_stack_graph"))
 
@@ -418,3 +419,25 @@ def _no_default_filter(db, chk, m):
             if H.is_self_attr(t, "filter_func"):
                 chk.ob(rule, f"{q}: the stored filter is the parameter", H.name_id(v) == "filter_func", m.loc(st_), found=ast.unparse(v)[:80], accepted="self.filter_func = filter_func")
     chk.floor(rule, 4)
+
+
+def host_rows_complete(db, chk, rule: str) -> None:
+    """(shared with C13 / C16, whose numbers are read off this tree) ALL host events of the thread enter the stack construction of the builder behind the
+    kernel-sequence / counter / timeline analyses: the row selector is the stream test alone (every host event, zero-duration ones included, becomes a node)"""
+    new = db.mod(NEW)
+    f = H.inline_helpers(new, new.func("CallStackGraph._construct_call_stack_graph"))
+    sel = [n for n, b in H.find_match("$d['stream'].eq(-1)", f) + H.find_match("$d['stream'] == -1", f) + H.find_match("$d.stream.eq(-1)", f) + H.find_match("$d.stream == -1", f)]
+    if len(sel) != 1:
+        chk.ob(rule, f"{NEW}: the host-row selection that feeds the stack is recognised", None, new.loc(f), found=[ast.unparse(s_) for s_ in sel])
+        return
+    holder = next((n for n in ast.walk(f) if isinstance(n, ast.Subscript) and any(x is sel[0] for x in ast.walk(n.slice))), None)
+    if holder is None:
+        chk.ob(rule, f"{NEW}: the row selection that feeds the stack is recognised", None, new.loc(f), found=ast.unparse(sel[0]))
+        return
+
+    def conj(e):
+        return conj(e.left) + conj(e.right) if isinstance(e, ast.BinOp) and isinstance(e.op, ast.BitAnd) else [e]
+    parts = conj(holder.slice)
+    extra = [ast.unparse(p_)[:80] for p_ in parts if p_ is not sel[0]]
+    chk.ob(rule, f"{NEW}: every host event of the thread enters the stack (the selector is the stream test alone)", (not extra) if all(isinstance(p_, (ast.Call, ast.Compare)) for p_ in parts) else None, new.loc(holder),
+           found=extra or "stream test only", accepted="df.loc[df['stream'].eq(-1)]", why="a further condition (e.g. dur > 0) leaves host events without a node: a zero-length launch call and the kernel beneath it drop out of the tree")
